@@ -1,5 +1,6 @@
 SPECIFICATION MCSpec
 CONSTANTS Malformed = "ascoded"
+ ApiErr = "ascoded"
  Variant = "anyenc"
  AltForks = {"electra"}
 INVARIANTS NoCallOnFault
